@@ -882,6 +882,134 @@ impl StorageEngine {
         }
     }
     
+    /// ZADD with any number of pairs as ONE storage call: the shard is reached (and the key's deadline
+    /// tested) once and the lock is held for all pairs, so the command applies wholly to the key that is
+    /// live at that instant or wholly to a fresh one. Per pair exactly as `zadd`; returns the number of new members.
+    pub fn zadd_many(&self, db: DatabaseIndex, key: Key, score_members: Vec<(f64, Vec<u8>)>) -> Result<usize> {
+        let shard = self.get_shard(db, &key)?;
+        let mut shard_guard = shard.write().unwrap();
+        
+        let mut added = 0;
+        for (score, member) in score_members {
+            let is_new = if let Some(stored_value) = shard_guard.data.get_mut(&key) {
+                match &mut stored_value.value {
+                    Value::SortedSet(skiplist) => {
+                        let old_score = skiplist.insert(member.clone(), score);
+                        shard_guard.mark_modified(&key);
+                        old_score.is_none()
+                    }
+                    _ => return Err(StorageError::WrongType.into()),
+                }
+            } else {
+                // Create a new sorted set
+                let skiplist = SkipList::new();
+                skiplist.insert(member.clone(), score);
+                
+                let memory_size = self.calculate_value_size(&key, &Value::empty_sorted_set()) +
+                                 self.calculate_member_size(&member);
+                
+                if !self.memory_manager.add_memory(memory_size) {
+                    return Err(StorageError::OutOfMemory.into());
+                }
+                
+                let stored_value = StoredValue::new(Value::SortedSet(Arc::new(skiplist)));
+                shard_guard.data.insert(key.clone(), stored_value);
+                shard_guard.mark_modified(&key);
+                true
+            };
+            if is_new {
+                added += 1;
+            }
+        }
+        
+        Ok(added)
+    }
+    
+    /// ZREM with any number of members as ONE storage call (see `zadd_many`). Per member exactly as `zrem`;
+    /// returns the number of members removed.
+    pub fn zrem_many<T: AsRef<[u8]>>(&self, db: DatabaseIndex, key: &[u8], members: &[T]) -> Result<usize> {
+        let shard = self.get_shard(db, key)?;
+        let mut shard_guard = shard.write().unwrap();
+        
+        let mut removed_count = 0;
+        for member in members {
+            let member = member.as_ref();
+            if let Some(stored_value) = shard_guard.data.get_mut(key) {
+                let (removed, is_empty) = match &mut stored_value.value {
+                    Value::SortedSet(skiplist) => {
+                        let removed = skiplist.remove(member).is_some();
+                        (removed, skiplist.is_empty())
+                    }
+                    _ => return Err(StorageError::WrongType.into()),
+                };
+                
+                if removed {
+                    removed_count += 1;
+                    shard_guard.mark_modified(key);
+                    let member_size = self.calculate_member_size(member);
+                    self.memory_manager.remove_memory(member_size);
+                    
+                    if is_empty {
+                        shard_guard.data.remove(key);
+                        shard_guard.expiring_keys.remove(key);
+                    }
+                }
+            } else {
+                break;
+            }
+        }
+        
+        Ok(removed_count)
+    }
+    
+    /// ZPOPMIN (`min`) / ZPOPMAX with a count as ONE storage call (see `zadd_many`): up to `count` members
+    /// with the lowest / highest rank are removed and returned in pop order; the key is deleted when emptied.
+    pub fn zpop(&self, db: DatabaseIndex, key: &[u8], count: usize, min: bool) -> Result<Vec<(Vec<u8>, f64)>> {
+        let shard = self.get_shard(db, key)?;
+        let mut shard_guard = shard.write().unwrap();
+        
+        let mut popped = Vec::new();
+        while popped.len() < count {
+            if let Some(stored_value) = shard_guard.data.get_mut(key) {
+                let (item, is_empty) = match &mut stored_value.value {
+                    Value::SortedSet(skiplist) => {
+                        let len = skiplist.len();
+                        if len == 0 {
+                            (None, true)
+                        } else {
+                            let rank = if min { 0 } else { len - 1 };
+                            let item = skiplist.range_by_rank(rank, rank).items.into_iter().next();
+                            if let Some((member, _)) = &item {
+                                skiplist.remove(member);
+                            }
+                            (item, skiplist.is_empty())
+                        }
+                    }
+                    _ => return Err(StorageError::WrongType.into()),
+                };
+                
+                match item {
+                    Some((member, score)) => {
+                        shard_guard.mark_modified(key);
+                        let member_size = self.calculate_member_size(&member);
+                        self.memory_manager.remove_memory(member_size);
+                        
+                        if is_empty {
+                            shard_guard.data.remove(key);
+                            shard_guard.expiring_keys.remove(key);
+                        }
+                        popped.push((member, score));
+                    }
+                    None => break,
+                }
+            } else {
+                break;
+            }
+        }
+        
+        Ok(popped)
+    }
+    
     pub fn zscore(&self, db: DatabaseIndex, key: &[u8], member: &[u8]) -> Result<Option<f64>> {
         let shard = self.get_shard(db, key)?;
         let mut shard_guard = shard.write().unwrap();
